@@ -64,6 +64,7 @@ type vWaSock struct {
 	failNow   map[int]bool             // indices of SetWriteDeadline(now) calls that fail
 	onNow     func(k int, failed bool) // script hooks, called outside the lock on the caller's goroutine
 	onZero    func(k int)
+	onZeroPre func(k int) // called when SetWriteDeadline(zero) has been ENTERED, before it takes effect
 	onWrite   map[int]func()
 	closedCh  chan struct{}
 	closeOnce sync.Once
@@ -157,6 +158,15 @@ func (s *vWaSock) SetWriteDeadline(t time.Time) error {
 	r := s.rec
 	r.mu.Lock()
 	if t.IsZero() {
+		// the call is entered, but takes effect only after a (scripted / seeded) while: whatever the caller
+		// did BEFORE calling is visible to the other users first
+		pre, fnPre, kPre := s.drawLocked(), s.onZeroPre, s.zeroCalls
+		r.mu.Unlock()
+		if fnPre != nil {
+			fnPre(kPre)
+		}
+		pre.wait()
+		r.mu.Lock()
 		k := s.zeroCalls
 		s.zeroCalls++
 		s.armed = false
@@ -733,6 +743,30 @@ func vWaSchedBlockedThenError(ap bool, path int) string {
 	return r.finish()
 }
 
+// S11: user A's blocked write is aborted, A is the last writer and is INSIDE SetWriteDeadline(zero) (entered,
+// not yet effective) when user B starts a write: B must wait for the clear and succeed.
+func vWaSchedWriteDuringClear(ap bool, path int) string {
+	r := newVWaRunKind(nil, ap)
+	var dB chan struct{}
+	r.sock.onZeroPre = func(k int) {
+		if k == 0 {
+			dB = r.goWriteP(1, context.Background(), false, 0, 1, path)
+			vWaWaitCh(dB, 3*time.Millisecond) // a correct mux keeps B waiting until this call has returned
+		}
+	}
+	dA := r.goWriteP(0, context.Background(), false, 1, 0, vWaPathAddr)
+	r.waitPending(0)
+	_ = r.abort(0, 0)
+	vWaWaitCh(dA, vWaPatience(2*time.Second))
+	if dB != nil {
+		vWaWaitCh(dB, vWaPatience(2*time.Second))
+	}
+	if r.quiesce(5 * time.Second) {
+		r.probe(2)
+	}
+	return r.finish()
+}
+
 // F11 (DESIGN.md §7): failed arming + a waiter left over from the ended epoch.
 //
 //	X in flight, abort 1 sets blocked; X's write completes, X waits in clearWriteDeadlineAfterAbort;
@@ -1128,6 +1162,8 @@ func vWaGen(o *vOut, r *vRand, thorough bool, args []string, emit func(op string
 	sched(func() string { return vWaSchedCancel(true, true, pP) })
 	sched(func() string { return vWaSchedSpinner(true, pP, pA) })
 	sched(func() string { return vWaSchedSpinner(true, pA, pP) })
+	sched(func() string { return vWaSchedWriteDuringClear(false, pA) })
+	sched(func() string { return vWaSchedWriteDuringClear(true, pP) })
 	// F11: retried until the schedule is reached (it cannot be on a repaired tree)
 	var h string
 	reached := false
